@@ -1033,7 +1033,8 @@ class Engine:
             return "noop"
         before = self.lifecycle_snapshot()
         try:
-            rec.obj.__enter__()
+            # either spelling: the with-statement protocol or the explicit activate()
+            (rec.obj.activate if op.get("how") == "activate" and hasattr(rec.obj, "activate") else rec.obj.__enter__)()
             self.violate("C17.single_activation", {"probe": rec.id, "second activation": "accepted"})
             # the model cannot follow an accepted second activation
             rec.dead = True
